@@ -39,7 +39,7 @@ Print Assumptions C10_fua_shape.
 
 (* ... and H264Packet reassembles exactly that unit from them *)
 Theorem C10_fua_reassembly : forall avc nri ty fs cs,
-  nri = 0 \/ nri = 32 \/ nri = 64 \/ nri = 96 -> 1 <= ty <= 23 ->
+  nri = 0 \/ nri = 32 \/ nri = 64 \/ nri = 96 \/ nri = 128 \/ nri = 160 \/ nri = 192 \/ nri = 224 -> 1 <= ty <= 23 ->
   fua_rel (Z.lor 28 nri) ty true fs cs -> forall stale,
   depack (mkH264Pkt avc stale) (map own_bytes fs)
   = Ok (mkH264Pkt avc [], packaging avc [] (Z.lor nri ty :: concat cs)).
@@ -50,7 +50,7 @@ Print Assumptions C10_fua_reassembly.
    on a STAP-A, and on the FU-A fragment that carries the S bit - false on every later fragment *)
 From RTP Require Import Proofs.PartitionHead.
 
-Theorem C10_partition_head_fua : forall nri ty fs cs, nri = 0 \/ nri = 32 \/ nri = 64 \/ nri = 96 -> 1 <= ty <= 23 ->
+Theorem C10_partition_head_fua : forall nri ty fs cs, nri = 0 \/ nri = 32 \/ nri = 64 \/ nri = 96 \/ nri = 128 \/ nri = 160 \/ nri = 192 \/ nri = 224 -> 1 <= ty <= 23 ->
   fua_rel (Z.lor 28 nri) ty true fs cs ->
   map (fun f => h264_is_partition_head (Some (own_bytes f))) fs = true :: repeat false (length fs - 1).
 Proof. exact h264_fua_heads. Qed.
@@ -117,6 +117,14 @@ Example C10_nonvacuous :
   fs = [Own [28 + 96; 128 + 5; 1; 2; 3]; Own [124; 5; 4; 5; 6]; Own [124; 64 + 5; 7]].
 Proof. do 2 eexists. split; [vm_compute; reflexivity|reflexivity]. Qed.
 
+(* D27 (fixed in /repo): a unit whose forbidden_zero_bit is set (0xA5 = F, NRI 1, type 5) keeps it when it is
+   fragmented - the FU indicator is 28 + F + NRI = 188 - and comes back with it *)
+Example C10_f_bit_fragmented :
+  exists st fs, h264_payload (mkH264Pay false None None) 3 (Some [0; 0; 0; 1; 165; 1; 2; 3]) = Ok (st, fs) /\
+  fs = [Own [188; 128 + 5; 1]; Own [188; 5; 2]; Own [188; 64 + 5; 3]] /\
+  depack (mkH264Pkt false []) (map own_bytes fs) = Ok (mkH264Pkt false [], [0; 0; 0; 1; 165; 1; 2; 3]).
+Proof. do 2 eexists. split; [vm_compute; reflexivity|split; vm_compute; reflexivity]. Qed.
+
 (* the former finding KF-C10-stapa-drop (fixed in /repo): at MTU 8 the STAP-A of a 3-byte SPS and a
    3-byte PPS would be 11 bytes; the pair is now sent as two single NAL unit packets in front of
    the slice instead of being dropped.  held_valid holds of a fresh payloader. *)
@@ -150,7 +158,7 @@ Proof.
   split; [|split; reflexivity].
   repeat (apply Forall_cons || apply Forall_nil).
   - cbn. lia.
-  - cbn [wf_item]. split; [right; right; right; reflexivity|].
+  - cbn [wf_item]. split; [right; right; right; left; reflexivity|].
     repeat (apply Forall_cons || apply Forall_nil); cbn; lia.
   - cbn. lia.
 Qed.
